@@ -52,6 +52,8 @@ type Params struct {
 	MinV uint64 `json:"minv"`
 	Exp  uint64 `json:"exp"`
 	Band string `json:"band"` // raw Dec
+	Win  uint64 `json:"win,omitempty"` // SlashWindow; 0 = so large that it is never reached
+	MV   string `json:"mv,omitempty"`  // MinValidPerWindow raw (default 0.69)
 }
 type Tuple struct {
 	P int    `json:"p"`
@@ -186,6 +188,12 @@ func prepare(t *testing.T, in Input) (okeeper.TestFixture, sdk.Context, error) {
 	p.ExpirationBlocks = in.Params.Exp
 	p.RewardBand = decOfRaw(in.Params.Band)
 	p.SlashWindow = in.Params.VP * 1000003 // never reached by the generated heights
+	if in.Params.Win > 0 {
+		p.SlashWindow = in.Params.Win
+	}
+	if in.Params.MV != "" {
+		p.MinValidPerWindow = decOfRaw(in.Params.MV)
+	}
 	p.Whitelist = nil
 	for _, w := range in.WL {
 		p.Whitelist = append(p.Whitelist, pairs[w])
